@@ -821,6 +821,9 @@ func (x *Exec) checkPost(s *State, res []Val) {
 			x.emit(s, "cover", c.Label, c.Props, sNot(hyp), c)
 		}
 	}
+	if x.spec.ZeroesNewFields && x.fn.Signature.Recv() != nil {
+		x.checkNewFieldsZeroed(s)
+	}
 	if x.spec.Implements != "" {
 		x.checkImplements(s, res)
 	}
@@ -1399,4 +1402,128 @@ func baselineParamName(fn string, i int) string {
 		return ns[i]
 	}
 	return ""
+}
+
+
+// checkNewFieldsZeroed: for a Reset-like method ("like new"), every field of the receiver that the
+// contract files do not classify - i.e. one added after they were written, which the like_new
+// clause cannot mention - must end as its zero value, as it is in a freshly constructed object.
+func (x *Exec) checkNewFieldsZeroed(s *State) {
+	this, ok := x.params["this"]
+	if !ok || len(this.L) != 1 {
+		return
+	}
+	pt, ok := types.Unalias(x.fn.Params[0].Type()).Underlying().(*types.Pointer)
+	if !ok {
+		return
+	}
+	nt, ok := types.Unalias(pt.Elem()).(*types.Named)
+	if !ok {
+		return
+	}
+	st, ok := nt.Underlying().(*types.Struct)
+	if !ok {
+		return
+	}
+	tk := typeKey(nt)
+	ts := x.P.specs.Types[tk]
+	if ts == nil {
+		x.note("zeroes_unclassified_fields: no type contract for " + tk)
+		return
+	}
+	for i := 0; i < st.NumFields(); i++ {
+		f := st.Field(i)
+		name := f.Name()
+		_, g := ts.Guarded[name]
+		_, so := ts.SubObjects[name]
+		_, dt := ts.DynType[name]
+		if g || so || dt || ts.Atomic[name] || ts.Immutable[name] || ts.AtomicCell[name] || ts.Confined[name] {
+			continue
+		}
+		ls := leavesOf(f.Type())
+		if len(ls) == 0 {
+			continue
+		}
+		if !x.P.fieldIsRead(st, i) {
+			// a field nothing reads (a write-only counter) cannot make the instance behave differently
+			x.note("zeroes_unclassified_fields: " + tk + "." + name + " is never read in the repository; not required to be reset")
+			continue
+		}
+		z := zeroVal(f.Type())
+		var eqs []string
+		for j, lf := range ls {
+			eqs = append(eqs, sEq(x.heapLoad(s, tk+"."+name+lf.Suffix, lf.Sort, this.L[0]), z.L[j]))
+		}
+		var props []string
+		seen := map[string]bool{}
+		for _, c := range x.spec.Ensures {
+			for _, p := range c.Props {
+				if !seen[p] {
+					seen[p] = true
+					props = append(props, p)
+				}
+			}
+		}
+		x.emit(s, "ensures", "new_field_is_reset:"+name, props, sAnd(eqs...), nil)
+	}
+}
+
+// fieldIsRead: some function of the repository loads field idx of struct st (a FieldAddr whose
+// address is used by anything other than a store into it, or a Field of a struct value).
+func (p *Prog) fieldIsRead(st *types.Struct, idx int) bool {
+	for _, f := range p.fnByID {
+		for _, b := range f.Blocks {
+			for _, in := range b.Instrs {
+				switch v := in.(type) {
+				case *ssa.Field:
+					if structOf(v.X.Type()) == st && v.Field == idx {
+						return true
+					}
+				case *ssa.FieldAddr:
+					if structOf(v.X.Type()) != st || v.Field != idx {
+						continue
+					}
+					for _, u := range *v.Referrers() {
+						if sto, ok := u.(*ssa.Store); ok && sto.Addr == v {
+							continue
+						}
+						if _, ok := u.(*ssa.DebugRef); ok {
+							continue
+						}
+						if ld, ok := u.(*ssa.UnOp); ok && ld.Op == token.MUL && onlyFeedsItself(ld, st, idx) {
+							continue // m.f++ / m.f += k: the value read only flows back into the field
+						}
+						return true
+					}
+				}
+			}
+		}
+	}
+	return false
+}
+
+func onlyFeedsItself(ld *ssa.UnOp, st *types.Struct, idx int) bool {
+	for _, r := range *ld.Referrers() {
+		bo, ok := r.(*ssa.BinOp)
+		if !ok {
+			if _, dbg := r.(*ssa.DebugRef); dbg {
+				continue
+			}
+			return false
+		}
+		for _, r2 := range *bo.Referrers() {
+			if _, dbg := r2.(*ssa.DebugRef); dbg {
+				continue
+			}
+			sto, ok := r2.(*ssa.Store)
+			if !ok {
+				return false
+			}
+			fa, ok := sto.Addr.(*ssa.FieldAddr)
+			if !ok || structOf(fa.X.Type()) != st || fa.Field != idx {
+				return false
+			}
+		}
+	}
+	return true
 }
